@@ -1031,9 +1031,14 @@ def _one_value_per_name(ctx, f, L, body, a: str, V: str, selfn: str) -> List[str
             new = []
             for cnt, rb in outcomes:
                 if isinstance(st, ast.If):
-                    for branch in (st.body, st.orelse):
-                        for c2, rb2 in walk(branch, rb):
-                            new.append((cnt + c2, rb2))
+                    # `if <name> == 'hist':` — the history callable is not a graph variable; its value is whatever the
+                    # branch provides (treated like a re-bound target: only the count is checked there)
+                    is_hist = isinstance(st.test, ast.Compare) and len(st.test.ops) == 1 and isinstance(st.test.ops[0], ast.Eq) \
+                        and isinstance(st.test.left, ast.Name) and st.test.left.id == a \
+                        and isinstance(st.test.comparators[0], ast.Constant) and st.test.comparators[0].value == "hist"
+                    for branch, exempt in ((st.body, is_hist), (st.orelse, False)):
+                        for c2, rb2 in walk(branch, rb or exempt):
+                            new.append((cnt + c2, rb2 and not exempt or rb))
                 elif isinstance(st, (ast.For, ast.While, ast.Try, ast.With)):
                     if any(isinstance(c, ast.Call) and isinstance(c.func, ast.Attribute) and isinstance(c.func.value, ast.Name)
                            and c.func.value.id == V for c in ast.walk(st)):
